@@ -921,6 +921,11 @@ func (rn *runner) explore() {
 						rn.out.Harness = append(rn.out.Harness, fmt.Sprintf("%s.%s: %v", sp.Pkg, name, err))
 						return
 					}
+					if r == 0 && o.res.Threads == 1 && n > 2 {
+						n = 2 // a single-threaded injector has one schedule; the second run only re-draws latencies
+					} else if r == 0 && o.res.Threads > 3 && sc.plan.Decisions == nil && sc.kind != "stall" {
+						n += n / 2 // more threads, more interleavings
+					}
 					rn.record(o)
 					rn.probeRun(ref, o, &sc)
 					if rn.effective(&sc, o) {
